@@ -361,6 +361,10 @@ def check_cups(ctx):
     r = ret_expr(cf.body)
     cp = [a.arg for a in cf.args.args]
     ok = r is not None and ast.unparse(r) in ("cups(%s, %s, %s, %s, reverse=True)" % tuple(cp[:4]),)
+    if not ok and isinstance(r, ast.Call) and ast.unparse(r.func) == "cups":          # the same call with some arguments passed by keyword
+        from ..helpers import _bind
+        b = _bind(fn, r, None)
+        ok = b is not None and {k: ast.unparse(v) for k, v in b.items()} == dict(zip([a.arg for a in fn.args.args], cp[:4] + ["True"]))
     ctx.ob("R04.5", RIG + ".caps", ok, found=ast.unparse(r) if r is not None else None, required="caps = cups with cap boxes, composed in reverse",
            mod=RIG, node=cf, sig="caps")
     for name, fac in (("cups", "cups"), ("caps", "caps")):
